@@ -87,6 +87,21 @@ def gen_hint_list(tape, valid, bogus_target):
                         "priority": 0.0})
     for v in valid:
         out.insert(tape.choose(len(out) + 1, "vp"), v)
+    # twins of the *valid* hints with one field changed (same host and port,
+    # another type / priority type): before or after the original
+    for v in list(valid):
+        if isinstance(v, dict) and tape.choose(3, "twin") == 0:
+            t = dict(v)
+            f = tape.pick(("type", "type", "priority", "port"), "twf")
+            if f == "type":
+                t["type"] = tape.pick(("tor-tcp-v1", "direct-tcp-v2",
+                                       "relay-v1", None), "twt")
+            elif f == "priority":
+                t["priority"] = junk_value(tape)
+            else:
+                t["port"] = tape.pick(ODD_PORTS, "twp")
+            i = out.index(v) if v in out else len(out)
+            out.insert(i if tape.choose(2, "twpos") == 0 else i + 1, t)
     return out
 
 
